@@ -245,6 +245,10 @@ func (m *Mirror) HandleProposedHeader(ctx context.Context, ph tmconsensus.Propos
 		return tmconsensus.HandleProposedHeaderMissingProposerPubKey
 	}
 
+	// Whether we have already tried to backfill the previous height's commit
+	// from this proposed header's previous commit proof.
+	triedBackfill := false
+
 RESTART:
 	req := tmi.PHCheckRequest{
 		PH:   ph,
@@ -278,6 +282,14 @@ RESTART:
 		// Cannot continue.
 		return tmconsensus.HandleProposedHeaderSignerUnrecognized
 	case tmi.PHCheckNextHeight:
+		if triedBackfill {
+			// The previous commit proof on this proposed header did not move us to its height
+			// (the proof was rejected or insufficient, or we cannot commit yet),
+			// so the header is still ahead of us. Retrying would spin forever.
+			return tmconsensus.HandleProposedHeaderRoundTooFarInFuture
+		}
+		triedBackfill = true
+
 		// Special case: we make an additional request to the kernel if the PH is for the next height.
 		m.backfillCommitForNextHeightPE(ctx, req.PH)
 		goto RESTART // TODO: find a cleaner way to apply the proposed block after backfilling commit.
